@@ -58,15 +58,16 @@ type step struct {
 }
 
 type caseRun struct {
-	w      *World
-	r      *runner
-	t      *ids
-	steps  []step
-	parts  map[[3]int64]bool // (round, prev id, psig id) seen in part events
-	rp     map[[2]int64]bool // (round, prev id) combos that need sigtab / own entries
-	maxR   uint64
-	syncOn bool
-	desc   string
+	w         *World
+	r         *runner
+	t         *ids
+	steps     []step
+	parts     map[[3]int64]bool // (round, prev id, psig id) seen in part events
+	rp        map[[2]int64]bool // (round, prev id) combos that need sigtab / own entries
+	maxR      uint64
+	syncOn    bool
+	desc      string
+	ticksSeen int // ticks handled since the handler was (re)started
 }
 
 func grpTerm(poly int, ep *Epoch, me int) string {
@@ -117,7 +118,8 @@ func (c *caseRun) do(ev Event) Obs {
 		if nw >= w.Genesis {
 			k := (nw - w.Genesis) / w.Period
 			tt := w.Genesis + k*w.Period
-			if tt > old && c.r.ticking {
+			if tt > old && c.r.ticking && !c.r.holding {
+				c.ticksSeen++
 				st := c.syncTermAt(nw)
 				tick := fmt.Sprintf("ETick %d %s", k+1, st)
 				model = append(model, tick)
@@ -139,11 +141,25 @@ func (c *caseRun) do(ev Event) Obs {
 	case "restart":
 		model = append(model, "ERestart "+c.syncTerm())
 		c.r.ticking = true
+		c.ticksSeen = 0 // the first tick of a fresh ticker does not come from its time.Ticker
 	case "syncmode":
 		c.syncOn = ev.Sync == "honest"
 	case "transition":
+	case "hold":
+	}
+	stBefore := "None"
+	if ev.Kind == "release" {
+		stBefore = c.syncTerm()
 	}
 	o := c.r.Do(ev)
+	if ev.Kind == "release" && c.r.lastStale > 0 {
+		// the pending tick is consumed now, carrying the round of the instant it was generated
+		tick := fmt.Sprintf("ETick %d %s", c.r.lastStale, stBefore)
+		model = append(model, tick)
+		if stBefore != "None" {
+			alts = append(alts, []string{fmt.Sprintf("ETickSF %d %s", c.r.lastStale, stBefore)})
+		}
+	}
 	if ev.Kind == "part" {
 		pid, sid := c.t.id(c.r.lastPrev), c.t.id(c.r.lastSig)
 		model = append(model, fmt.Sprintf("EPart %d %s %s", ev.Round, emit.Z(pid), emit.Z(sid)))
@@ -370,6 +386,13 @@ func genScenario(c *caseRun, rng *rand.Rand, steps int) {
 	w := c.w
 	n := w.Epochs[0].N
 	c.do(Event{Kind: "start"})
+	// before genesis no round has started: only round 1 is "one round ahead of the clock"
+	if rng.Intn(2) == 0 {
+		for k := 0; k < 1+rng.Intn(3); k++ {
+			from := rng.Intn(n)
+			c.do(Event{Kind: "part", From: from, Claim: from, Round: uint64(1 + rng.Intn(3)), Prev: "ref", Ep: 0})
+		}
+	}
 	// reach genesis
 	c.advance(w.Genesis - w.Now())
 	transitioned := false
@@ -407,6 +430,33 @@ func genScenario(c *caseRun, rng *rand.Rand, steps int) {
 			c.do(Event{Kind: "transition", From: sh[0], Claim: sh[1], Round: first + 2 + uint64(rng.Intn(2)), Vacant: pickVacant(rng, sh[0], w.Me)})
 			transitioned = true
 			continue
+		}
+		if head == cur && cur >= 1 && c.r.ticking && !c.syncOn && c.ticksSeen >= 1 && rng.Intn(9) == 0 {
+			// a stall longer than a period: ticks are generated but not consumed (the ticker keeps the
+			// first pending one), the clock moves on by two rounds, the peers' partials -- sent in time --
+			// are aggregated when the process resumes, and only then the run loop consumes the stale tick
+			others := 0
+			for j := 0; j < n; j++ {
+				if j != w.Me && w.Epochs[live].IsMember(j) {
+					others++
+				}
+			}
+			if others >= w.Epochs[live].Thr {
+				c.do(Event{Kind: "hold"})
+				for k := 0; k < 2; k++ {
+					c.advance(w.Genesis + int64(w.CurrentRound())*w.Period - w.Now())
+					cnt := 0
+					for j := 0; j < n && cnt < w.Epochs[live].Thr; j++ {
+						if j == w.Me || !w.Epochs[live].IsMember(j) {
+							continue
+						}
+						c.do(Event{Kind: "part", From: j, Claim: j, Round: w.Head() + 1, Prev: "ref", Ep: live})
+						cnt++
+					}
+				}
+				c.do(Event{Kind: "release"})
+				continue
+			}
 		}
 		if head == cur && cur >= 1 && c.r.ticking && rng.Intn(7) == 0 {
 			// fast peers: a threshold of other members already signs the NEXT round (accepted: one round
@@ -458,6 +508,8 @@ func genScenario(c *caseRun, rng *rand.Rand, steps int) {
 			switch rng.Intn(5) {
 			case 0:
 				claim = rng.Intn(n + 2) // another member's index, or a non-member index
+			case 3:
+				prev = "refx"
 			case 1:
 				prev = "junk"
 			case 2:
@@ -485,7 +537,17 @@ func genScenario(c *caseRun, rng *rand.Rand, steps int) {
 				c.do(Event{Kind: "restart"})
 			}
 		default:
-			// complete the round honestly: thr-1 other members deliver valid partials
+			// complete the round honestly: thr-1 other members deliver valid partials -- sometimes
+			// preceded by a member's partial over the previous signature plus one byte (valid for THAT
+			// message, which is another one: it must not count, nor get in the way)
+			if rng.Intn(4) == 0 {
+				for j := 0; j < n; j++ {
+					if j != w.Me && w.Epochs[live].IsMember(j) {
+						c.do(Event{Kind: "part", From: j, Claim: j, Round: w.Head() + 1, Prev: "refx", Ep: live})
+						break
+					}
+				}
+			}
 			cnt := 0
 			for j := 0; j < n && cnt < w.Epochs[live].Thr; j++ {
 				if j == w.Me || !w.Epochs[live].IsMember(j) {
